@@ -57,6 +57,17 @@ Verdict(e) ==
     [] op = "with_scale" -> WithScaleOK(Arg(e.a), e.t, e.r)
     [] op = "with_prec" -> WithPrecOK(Arg(e.a), e.p, e.r)
     [] op = "consts" -> RepIs(e.r, IF e.form = "one" THEN DOne ELSE DZero)
+    [] op = "with_scale_round" -> WithScaleRoundOK(Arg(e.a), e.t, e.m, e.r)
+    [] op = "round" -> WithScaleRoundOK(Arg(e.a), e.t, cfg.mode, e.r)
+    [] op = "round_pair" -> RoundPairOK(e.m, e.sign, e.lhs, e.rhs, e.tz, e.r)
+    [] op = "round_u32" -> RoundU32OK(e.m, e.at, e.sign, ZOf(e.value), e.tz, e.r)
+    [] op = "with_precision_round" ->
+         IF "P" \in DOMAIN e THEN WithPrecisionRoundWideOK(WArg(e.a), ZOf(e.P), e.m, e.r)
+         ELSE WithPrecisionRoundOK(Arg(e.a), e.p, e.m, e.r)
+    [] op = "ctx_round" -> WithPrecisionRoundOK(Arg(e.a), e.p, e.m, e.r)
+    [] op = "ctx_add" -> CtxAddOK(Arg(e.a), Arg(e.b), e.p, e.m, e.r)
+    [] op = "ctx_default" -> CtxIs(e.r, cfg.precision, cfg.mode)
+    [] op = "ctx_setters" -> CtxIs(e.r, e.p, e.m)
     [] OTHER -> Bad("unknown-op")
 
 Step ==
